@@ -263,6 +263,50 @@ func nsxGroupSpace(name string, universe int) *nsxSpace {
 	}}
 }
 
+// clash: the device rule's group gA (members dm) is replaced in the target
+// rule by gB (members t1) while an inserted target rule (before or after)
+// uses a group with the id gA again (members t2; equal to dm or not).
+func nsxClashSpace() *nsxSpace {
+	const universe = 3
+	nsub := int64(1<<uint(universe)) - 1
+	set := func(mask int) []string {
+		var l []string
+		for i := 0; i < universe; i++ {
+			if mask&(1<<uint(i)) != 0 {
+				l = append(l, nsxAddrs[i])
+			}
+		}
+		return l
+	}
+	return &nsxSpace{name: "clash", n: nsub * nsub * nsub * 4, gen: func(i int64) (string, core.Files) {
+		variant := int(i % 4)
+		i /= 4
+		dm := int(i%nsub) + 1
+		i /= nsub
+		t1 := int(i%nsub) + 1
+		i /= nsub
+		t2 := int(i) + 1
+		r1 := nsxRuleT{"r1", "ALLOW", "OUT", 20, "g:gA", "10.2.1.10", "tcp_80", false, ""}
+		r1t := r1
+		r1t.src = "g:gB"
+		seq := 21
+		if variant&1 == 1 {
+			seq = 19
+		}
+		r2 := nsxRuleT{"r2", "ALLOW", "OUT", seq, "g:gA", "10.2.1.20", "tcp_80", false, ""}
+		dev := nsxCfgT{policies: map[string][]nsxRuleT{"v1": {r1}}, groups: map[string][]string{"gA": set(dm)}}
+		if variant&2 == 2 { // gB exists on the device already (unused)
+			dev.groups["gB"] = set(t2)
+		}
+		rules := []nsxRuleT{r1t, r2}
+		if seq < 20 {
+			rules = []nsxRuleT{r2, r1t}
+		}
+		tgt := nsxCfgT{policies: map[string][]nsxRuleT{"v1": rules}, groups: map[string][]string{"gB": set(t1), "gA": set(t2)}}
+		return nsxJSON(dev), core.Files{Main: nsxJSON(tgt)}
+	}}
+}
+
 func nsxServiceSpace() *nsxSpace {
 	type sv struct {
 		srv      string
@@ -455,7 +499,7 @@ func (x *nsxx) runCase(sp *nsxSpace, idx int64, a string, b core.Files, tag stri
 	}
 	for i, c := range cmds {
 		if err := m.Exec(c.method, c.url, c.body); err != nil {
-			if x.exec {
+			if x.exec || x.conv {
 				x.violation(sp, idx, a, b, script, i, "exec-accept", tag+"exec:"+execSig(err),
 					fmt.Sprintf("call %s %s: %v", c.method, c.url, err))
 			} else {
@@ -574,7 +618,7 @@ func (x *nsxx) runChain() {
 }
 
 func nsxSpaces(ctx *core.Ctx) []*nsxSpace {
-	l := []*nsxSpace{nsxRuleSpace("rules", 6), nsxGroupSpace("groups", 4), nsxServiceSpace(), nsxPolicySpace(), nsxCorpusSpace()}
+	l := []*nsxSpace{nsxRuleSpace("rules", 6), nsxGroupSpace("groups", 4), nsxClashSpace(), nsxServiceSpace(), nsxPolicySpace(), nsxCorpusSpace()}
 	if ctx.Thorough() {
 		l = append(l, nsxGroupSpace("groups-x", 5))
 	}
